@@ -195,6 +195,10 @@ def correspond(ctx):
   texts += ['', '\n', '\r', '\r\n', 'a\r', 'a\n', '\n\n', 'x = 1\rreturn x', 'foo(\rbar', '  a\r  b', '  a\r\n\r\n  b',
             '  a\n \n   b', '\ta\n\tb', ' \ta\n \tb\n', 'a\n\n', '  \n  x\n', 'a\r\n', '\x0c1', ' x\n  y\n z']
 
+  texts += [gen_pseudoblank_formula(rng) for _ in range(ctx.n(60, 1500))]
+  texts += ['a\n%s\nb' % c for c in PSEUDO_BLANK] + ['%s\nb(' % c for c in PSEUDO_BLANK[::3]] + \
+           ['a(\n%s' % c for c in PSEUDO_BLANK[1::3]]
+
   # 1. physical lines / universal newlines against CPython's tokenizer (string literal contents)
   cases, used = [], []
   q3 = "'" * 3
@@ -979,8 +983,36 @@ def gen_mlformula(rng):
   return wrap.replace('{L}', lit).replace('{M}', lit2)
 
 
+PB_LISTED = ['x = $A\n\xa0\nx + 1', 'foo(\n\u3000\nbar', "\u2028\n'abc", 'x = 1\n\x1c', '$A +\n\x85\n\x0b']
 ML_LISTED = ['b"""x\ny""".decode("ascii")', "len(b'''\n\n''') + $A", 'rb"""x\n  y\nz"""', "Rb'''\na\n'''.decode('ascii')",
              'f"""{$A}\n  y"""', "r'''x\n\\y'''", "len(b'a\\\n  b')", 'u"""x\ny"""']
+
+
+# -- lines made only of characters that str.isspace()/regex \s accept but the tokenizer does not treat as blank ---
+
+PSEUDO_BLANK = ['\xa0', '\u1680', '\u2000', '\u2001', '\u2002', '\u2003', '\u2004', '\u2005', '\u2006', '\u2007',
+                '\u2008', '\u2009', '\u200a', '\u2028', '\u2029', '\u202f', '\u205f', '\u3000', '\x85', '\x0b', '\x0c',
+                '\x1c', '\x1d', '\x1e', '\x1f']
+PB_INVALID = ['x = $A\n{P}\nx +', 'foo(\n{P}\nbar', "{P}\n'abc", 'if $A:\n{P}', 'x = 1\n{P}\ny = 2', '$A = 1\n{P}',
+              '1 +\\\n{P}', '{P}\n$A +', 'x = $A\n{P}\nx + 1', '$A\n{P}', '{P}\n$A', 'return return\n{P}', '"""abc\n{P}',
+              'x = (\n{P}', 'if 1:\nreturn 2\n{P}', '{P}\n)\n{P}', '$A $B\n{P}\n$A', 'def f(:\n{P}\n  pass']
+
+
+def gen_pseudoblank_formula(rng):
+  """An invalid formula (several kinds of syntax error) holding lines that consist only of pseudo-blank
+  characters, first/middle/last."""
+  def line():
+    c = rng.choice(PSEUDO_BLANK)
+    k = rng.random()
+    if k < 0.6:
+      return c
+    if k < 0.8:
+      return c * rng.randint(2, 3)
+    return rng.choice([' ', '  ', '']) + c + rng.choice(['', ' ', rng.choice(PSEUDO_BLANK)])
+  f = rng.choice(PB_INVALID)
+  while '{P}' in f:
+    f = f.replace('{P}', line(), 1)
+  return f
 
 
 def restyle(rng, f, style):
@@ -1028,16 +1060,19 @@ def gen_formula(rng):
   elif r < 0.62:
     f = gen_mlformula(rng)
     tag = 'multi-line-literal'
-  elif r < 0.72:
+  elif r < 0.70:
+    f = gen_pseudoblank_formula(rng)
+    tag = 'pseudo-blank-line'
+  elif r < 0.77:
     base = rng.choice(EXPRS + STMTS).replace('{E}', rng.choice(EXPRS)).replace('{F}', '2')
     f = mutate(rng, base)
     if rng.random() < 0.3:
       f = mutate(rng, f)
     tag = 'mutated'
-  elif r < 0.84:
+  elif r < 0.86:
     f = rng.choice(INVALID)
     tag = 'invalid'
-  elif r < 0.89:
+  elif r < 0.90:
     f = rng.choice(COMPILE_STAGE)
     tag = 'compile-stage'
   elif r < 0.94:
@@ -1060,7 +1095,7 @@ LISTED = ['x = 1\rreturn x', 'foo(\rbar', '"""a\n    \nb"""', '  x = $A\r\n\r\n 
 def search(ctx):
   rng = ctx.rng
   n = ctx.n(260, 6000)
-  formulas = [(f, 'listed') for f in LISTED + ML_LISTED] + [gen_formula(rng) for _ in range(n)]
+  formulas = [(f, 'listed') for f in LISTED + ML_LISTED + PB_LISTED] + [gen_formula(rng) for _ in range(n)]
   doc = None
   used = 0
   path = 'modify'
